@@ -24,6 +24,7 @@
 
    The file ends with the correspondence runner used by the harness. *)
 From Coq Require Export String List ZArith NArith Bool.
+From Coq Require Import Uint63.
 Export ListNotations.
 Open Scope Z_scope.
 
@@ -31,10 +32,12 @@ Open Scope Z_scope.
 (** * 1. math/big                                                           *)
 (* ======================================================================= *)
 
-Definition tt255 : Z := 2 ^ 255.
-Definition tt256 : Z := 2 ^ 256.
-Definition tt256m1 : Z := 2 ^ 256 - 1.
-Definition tt64 : Z := 2 ^ 64.
+(* closed numerals (not 2^n, which the VM would recompute at every use) *)
+Definition tt255 : Z := Eval vm_compute in 2 ^ 255.
+Definition tt256 : Z := Eval vm_compute in 2 ^ 256.
+Definition tt256m1 : Z := Eval vm_compute in 2 ^ 256 - 1.
+Definition tt64 : Z := Eval vm_compute in 2 ^ 64.
+Definition tt63 : Z := Eval vm_compute in 2 ^ 63.
 
 Inductive binop := Add | Sub | Mul | Div | Mod | Quo | Rem | And | Or | Xor.
 Inductive unop := Not | Abs | Neg | SetV.
@@ -73,7 +76,7 @@ Definition cmp_sem (x y : Z) : Z :=
   match x ?= y with Lt => -1 | Eq => 0 | Gt => 1 end.
 
 Definition wrap_u64 (z : Z) : Z := z mod tt64.
-Definition wrap_i64 (z : Z) : Z := (z + 2 ^ 63) mod tt64 - 2 ^ 63.
+Definition wrap_i64 (z : Z) : Z := (z + tt63) mod tt64 - tt63.
 Definition wrap_u8 (z : Z) : Z := z mod 256.
 
 Definition uint64_of (x : Z) : Z := Z.abs x mod tt64.               (* x.Uint64() *)
@@ -105,7 +108,7 @@ Definition exp_sem (base e : Z) : Z * Z :=
 Fixpoint be_to_Z_acc (acc : Z) (l : list N) : Z :=
   match l with
   | [] => acc
-  | b :: r => be_to_Z_acc (acc * 256 + Z.of_N b) r
+  | b :: r => be_to_Z_acc (256 * acc + Z.of_N b) r
   end.
 Definition be_to_Z (l : list N) : Z := be_to_Z_acc 0 l.                (* SetBytes *)
 
@@ -512,11 +515,11 @@ Definition dyn_gas_fn (name : string) (s : istate) (memory_size : N) : option (o
 
 (* which statement an execute function is *)
 Definition exec_stmt (bodies : list (string * stmt)) (name : string) (op : N) : option stmt :=
-  if String.eqb name "makePush.func1" then
+  if String.eqb name "makePush" then
     if (96 <=? op) && (op <=? 127) then Some (SPushCode (op - 95)) else None
-  else if String.eqb name "makeDup.func1" then
+  else if String.eqb name "makeDup" then
     if (128 <=? op) && (op <=? 143) then Some (SDup (op - 127)) else None
-  else if String.eqb name "makeSwap.func1" then
+  else if String.eqb name "makeSwap" then
     if (144 <=? op) && (op <=? 159) then Some (SSwap (op - 143 + 1)) else None
   else if String.eqb name "opStop" then Some SSkip
   else
@@ -526,7 +529,7 @@ Definition exec_stmt (bodies : list (string * stmt)) (name : string) (op : N) : 
        | (k, b) :: r => if String.eqb k name then Some b else find r
        end) bodies.
 Definition pc_extra (name : string) (op : N) : N :=
-  if String.eqb name "makePush.func1" then op - 95 else 0.
+  if String.eqb name "makePush" then op - 95 else 0.
 
 (* the deferred in.intPool.put(stack.data...) *)
 Definition reclaim (s : istate) : istate :=
@@ -625,25 +628,43 @@ Definition init_state (globals : list Z) (pool0 : list Z) (gas : N) : istate :=
 (* ======================================================================= *)
 Local Open Scope Z_scope.
 
-Definition M256 : Z := 2 ^ 256.
-Definition sgn256 (x : Z) : Z := if x <? 2 ^ 255 then x else x - M256.   (* two's complement reading *)
+Definition M256 : Z := Eval vm_compute in 2 ^ 256.
+Definition M255 : Z := Eval vm_compute in 2 ^ 255.
+(* x mod 2^256, computed by masking (Z division is very slow under vm_compute);
+   Proofs.v: wrap256 x = x mod 2^256 *)
+Definition wrap256 (x : Z) : Z := Z.land x tt256m1.
+Definition sgn256 (x : Z) : Z := if x <? M255 then x else x - M256.   (* two's complement reading *)
 Definition b2w (b : bool) : Z := if b then 1 else 0.
 
-Definition spec_add a b := (a + b) mod M256.
-Definition spec_mul a b := (a * b) mod M256.
-Definition spec_sub a b := (a - b) mod M256.
+Definition spec_add a b := wrap256 (a + b).
+Definition spec_mul a b := wrap256 (a * b).
+Definition spec_sub a b := wrap256 (a - b).
 Definition spec_div a b := if b =? 0 then 0 else a / b.
-Definition spec_sdiv a b := if b =? 0 then 0 else (Z.quot (sgn256 a) (sgn256 b)) mod M256.
+Definition spec_sdiv a b := if b =? 0 then 0 else wrap256 (Z.quot (sgn256 a) (sgn256 b)).
 Definition spec_mod a b := if b =? 0 then 0 else a mod b.
-Definition spec_smod a b := if b =? 0 then 0 else (Z.rem (sgn256 a) (sgn256 b)) mod M256.
+Definition spec_smod a b := if b =? 0 then 0 else wrap256 (Z.rem (sgn256 a) (sgn256 b)).
 Definition spec_addmod a b n := if n =? 0 then 0 else (a + b) mod n.
 Definition spec_mulmod a b n := if n =? 0 then 0 else (a * b) mod n.
-Definition spec_exp a b := (a ^ b) mod M256.
+(* a^b mod 2^256 by repeated squaring (a^b itself is astronomically large);
+   Proofs.v shows pow256 a b = a^b mod 2^256 *)
+Fixpoint pow256_pos (a : Z) (b : positive) : Z :=
+  match b with
+  | xH => wrap256 a
+  | xO b' => let r := pow256_pos a b' in wrap256 (r * r)
+  | xI b' => let r := pow256_pos a b' in wrap256 (wrap256 (r * r) * a)
+  end.
+Definition pow256 (a b : Z) : Z :=
+  match b with
+  | Z0 => 1
+  | Zpos p => pow256_pos a p
+  | Zneg _ => 0
+  end.
+Definition spec_exp a b := pow256 a b.
 Definition spec_signextend b x :=
   if b <? 31 then
     let t := 8 * b + 7 in
-    let lo := x mod 2 ^ (t + 1) in
-    if Z.testbit x t then lo + (M256 - 2 ^ (t + 1)) else lo
+    let lo := Z.land x (Z.ones (t + 1)) in                     (* x mod 2^(t+1) *)
+    if Z.testbit x t then lo + (M256 - Z.shiftl 1 (t + 1)) else lo
   else x.
 Definition spec_lt a b := b2w (a <? b).
 Definition spec_gt a b := b2w (a >? b).
@@ -654,13 +675,13 @@ Definition spec_iszero a := b2w (a =? 0).
 Definition spec_and a b := Z.land a b.
 Definition spec_or a b := Z.lor a b.
 Definition spec_xor a b := Z.lxor a b.
-Definition spec_not a := M256 - 1 - a.
-Definition spec_byte i x := if i <? 32 then (x / 2 ^ (8 * (31 - i))) mod 256 else 0.
-Definition spec_shl s v := if s <? 256 then (v * 2 ^ s) mod M256 else 0.
-Definition spec_shr s v := if s <? 256 then v / 2 ^ s else 0.
+Definition spec_not a := tt256m1 - a.
+Definition spec_byte i x := if i <? 32 then Z.land (Z.shiftr x (8 * (31 - i))) 255 else 0.
+Definition spec_shl s v := if s <? 256 then wrap256 (Z.shiftl v s) else 0.   (* v * 2^s *)
+Definition spec_shr s v := if s <? 256 then Z.shiftr v s else 0.             (* v / 2^s *)
 Definition spec_sar s v :=
-  if s <? 256 then (sgn256 v / 2 ^ s) mod M256
-  else if sgn256 v <? 0 then M256 - 1 else 0.
+  if s <? 256 then wrap256 (Z.shiftr (sgn256 v) s)                          (* floor (v / 2^s) *)
+  else if sgn256 v <? 0 then tt256m1 else 0.
 
 (* computational opcodes: arity, function on the popped operands (top first), static gas *)
 Inductive cfun :=
@@ -786,6 +807,18 @@ Definition spec_step (code : list N) (s : pstate) : presult :=
 (** * 5. Correspondence runner                                              *)
 (* ======================================================================= *)
 
+(* Observed lists are compared through a multiplicative digest modulo 2^124
+   (parsing thousands of 256-bit literals would dominate the run; the harness
+   computes the same digest on the implementation's observations and keeps the
+   full lists in result.json for the replay file).  Only shifts, masks and
+   multiplications: Z division is far too slow under vm_compute. *)
+Definition dMask : Z := 21267647932558653966460912964485513215.   (* 2^124 - 1 *)
+(* small multipliers written on the left: Pos.mul recurses on its first argument *)
+Definition dmix (acc v : Z) : Z :=
+  Z.land (33 * acc + Z.land v dMask + 7 * Z.land (Z.shiftr v 124) dMask + 1) dMask.
+Definition dlist (acc : Z) (l : list Z) : Z :=
+  fold_left dmix l (dmix acc (Z.of_nat (length l))).
+
 Record case := mkCase {
   c_code : list N;          (* bytecode *)
   c_gas : N;                (* gas limit *)
@@ -793,12 +826,46 @@ Record case := mkCase {
   (* observed on the implementation *)
   c_status : N;
   c_gas_left : N;
-  c_tops : list Z;          (* top of stack before every executed step *)
-  c_stack : list Z;         (* stack before the halting step, top first ([] on error) *)
-  c_mem : list N;           (* memory before the halting step ([] on error) *)
-  c_pool_out : list Z;      (* cells handed back to the pool, bottom first *)
-  c_pool_alias : list N     (* per cell of c_pool_out: index of the first identical pointer *)
+  c_run : Z;                (* digest of: top of stack before every executed step; on normal halt
+                               also the stack (top first) and the memory before the halting step *)
+  c_poolout : Z             (* digest of: values of the cells handed back to the pool (bottom
+                               first); per cell the index of the first identical pointer *)
 }.
+
+(* transport of the bytecode: 7 bytes per primitive 63-bit integer (big-endian),
+   zero padded; parsing one numeral per byte would dominate the run.  Used only
+   to build [c_code]; no theorem mentions primitive integers. *)
+Fixpoint bits_to_N (n : nat) (i : int) : N :=
+  match n with
+  | O => 0%N
+  | S k =>
+    let r := bits_to_N k (Uint63.lsr i 1) in
+    if Uint63.eqb (Uint63.land i 1) 0 then N.double r else N.succ_double r
+  end.
+Fixpoint unpack7 (k : nat) (i : int) (acc : list N) : list N :=
+  match k with
+  | O => acc
+  | S k' => unpack7 k' (Uint63.lsr i 8) (bits_to_N 8 (Uint63.land i 255) :: acc)
+  end.
+Fixpoint unpack (l : list int) : list N :=
+  match l with
+  | [] => []
+  | i :: r => unpack7 7 i (unpack r)
+  end.
+(* every per-case number travels as a primitive integer:
+   - pool seeds: x >= 16 stands for the value x - 2^61, x < 16 for bigs[x]
+   - the two digests are split into two 62-bit halves *)
+Definition seed_of (bigs : list Z) (x : int) : Z :=
+  if Uint63.ltb x 16 then nth (Z.to_nat (Uint63.to_Z x)) bigs 0%Z
+  else (Uint63.to_Z x - 2305843009213693952)%Z.
+Definition join62 (lo hi : int) : Z :=
+  (Uint63.to_Z lo + 4611686018427387904 * Uint63.to_Z hi)%Z.
+Definition mkCaseP (bigs : list Z) (packed : list int) (len gas : int) (pool0 : list int)
+           (status gas_left : int) (run_lo run_hi pool_lo pool_hi : int) : case :=
+  mkCase (firstn (Z.to_nat (Uint63.to_Z len)) (unpack packed)) (Z.to_N (Uint63.to_Z gas))
+         (map (seed_of bigs) pool0)
+         (Z.to_N (Uint63.to_Z status)) (Z.to_N (Uint63.to_Z gas_left))
+         (join62 run_lo run_hi) (join62 pool_lo pool_hi).
 
 Fixpoint index_of (l : list N) (x : N) (i : N) : N :=
   match l with
@@ -807,10 +874,9 @@ Fixpoint index_of (l : list N) (x : N) (i : N) : N :=
   end.
 Definition alias_ids (l : list loc) : list N := map (fun x => index_of l x 0) l.
 
-Definition Zlist_eqb (a b : list Z) : bool :=
-  (length a =? length b)%nat && forallb (fun p => Z.eqb (fst p) (snd p)) (combine a b).
-Definition Nlist_eqb (a b : list N) : bool :=
-  (length a =? length b)%nat && forallb (fun p => N.eqb (fst p) (snd p)) (combine a b).
+Definition run_digest (ok : bool) (tops stack : list Z) (m : list N) : Z :=
+  let d := dlist 7 tops in
+  if ok then dlist (dlist d stack) (map Z.of_N m) else d.
 
 (* the heap model (regenerated bodies + regenerated table) against the observation *)
 Definition heap_ok (tbl : list opinfo) (bodies : list (string * stmt)) (globals : list Z) (c : case) : bool :=
@@ -821,31 +887,32 @@ Definition heap_ok (tbl : list opinfo) (bodies : list (string * stmt)) (globals 
     let cf := i_cfg s in
     let pl := rev (pool cf) in
     N.eqb st (c_status c) && N.eqb (i_gas s) (c_gas_left c)
-    && Zlist_eqb tops (c_tops c)
-    && Zlist_eqb (map (heap cf) pl) (c_pool_out c)
-    && Nlist_eqb (alias_ids pl) (c_pool_alias c)
-    && (if N.eqb st st_ok
-        then Zlist_eqb (map (heap cf) (stack cf)) (c_stack c) && Nlist_eqb (mem cf) (c_mem c)
-        else true)
+    && Z.eqb (dlist (dlist 11 (map (heap cf) pl)) (map Z.of_N (alias_ids pl))) (c_poolout c)
+    && Z.eqb (run_digest (N.eqb st st_ok) tops (map (heap cf) (stack cf)) (mem cf)) (c_run c)
   end.
 
 (* the specification machine against the observation *)
-Fixpoint spec_run (code : list N) (n : nat) (s : pstate) : presult :=
+Definition ptop (s : pstate) : Z := match p_stack s with [] => (-1)%Z | v :: _ => v end.
+Fixpoint spec_run (code : list N) (n : nat) (s : pstate) (tops : list Z) : presult * list Z :=
   match n with
-  | O => PNext s
+  | O => (PNext s, rev tops)
   | S k =>
     match spec_step code s with
-    | PNext s' => spec_run code k s'
-    | r => r
+    | PNext s' => spec_run code k s' (ptop s :: tops)
+    | PStop s' => (PStop s', rev (ptop s :: tops))
+    | r => (r, rev tops)
     end
   end.
 Definition spec_ok (c : case) : bool :=
-  match spec_run (c_code c) (S (length (c_code c))) (mkP [] [] 0 (c_gas c)) with
+  let '(r, tops) := spec_run (c_code c) (S (length (c_code c))) (mkP [] [] 0 (c_gas c)) [] in
+  match r with
   | PNext _ => false
   | PStop s =>
     N.eqb (c_status c) st_ok && N.eqb (p_gas s) (c_gas_left c)
-    && Zlist_eqb (p_stack s) (c_stack c) && Nlist_eqb (p_mem s) (c_mem c)
-  | PExc => negb (N.eqb (c_status c) st_ok) && N.eqb (c_gas_left c) 0
+    && Z.eqb (run_digest true tops (p_stack s) (p_mem s)) (c_run c)
+  | PExc =>
+    negb (N.eqb (c_status c) st_ok) && N.eqb (c_gas_left c) 0
+    && Z.eqb (run_digest false tops [] []) (c_run c)
   | PUnsupported => true
   end.
 
